@@ -214,6 +214,8 @@ class Exec(object):
                 tgt = ('const', self.repo.modules[mod].consts[nm], mod)
             else:
                 tgt = ('lib', dotted)
+        elif st.ctx[1] is not None and st.ctx[1] in self.repo.classes and self.repo.class_attr(st.ctx[1], head)[0] is not None and st.ctx[2] is None:
+            tgt = ('classattr', st.ctx[1], head)          # inside a class body: another class-level name
         elif head in BUILTINS:
             tgt = ('lib', 'builtins.' + head)
         elif head in LAT.bases:
@@ -307,7 +309,8 @@ class Exec(object):
             if attr == '__name__':
                 outs.append((sC, ('val', Val.s(CNAME(Val.cv(o))))))
             else:
-                raise Unsupported('attribute %s of a class value' % attr)
+                # an attribute of an arbitrary class object: present with an arbitrary value, or absent (sound over-approximation)
+                s2 = sC.copy(); outs.append((sC, ('val', fresh('clsattr_' + attr)))); outs.append(self.raise_(s2, 'AttributeError'))
         if sR is None:
             return outs
         sRef, sN = self.fork(sR, Val.is_ref(o))
@@ -1037,6 +1040,6 @@ class Exec(object):
 
 
 BUILTINS = {'len', 'isinstance', 'hasattr', 'callable', 'str', 'repr', 'int', 'float', 'list', 'dict', 'tuple', 'iter', 'next', 'any', 'all',
-            'sorted', 'enumerate', 'range', 'type', 'super', 'open', 'bytes', 'bool', 'getattr', 'min', 'max', 'property', 'set', 'frozenset', 'zip', 'id'}
+            'sorted', 'enumerate', 'range', 'type', 'super', 'open', 'bytes', 'bool', 'getattr', 'min', 'max', 'property', 'set', 'frozenset', 'zip', 'id', 'round'}
 LIBCONST = {'six.PY2': B(False), 'six.PY3': B(True), 'signal.SIGKILL': I(9)}
 OBJMETHODS = set()      # (class, method) pairs with a library model; filled by pyvc.lib
